@@ -600,6 +600,20 @@ def _other_sites():
         nrows = len(f.info["rows"])
         return (lambda: it.handle(f).append_column([1] * (nrows + 2), "c12col"), None)
 
+    @reg("DataFrame.append_column/unsupported-column-type")
+    def _(it, n):
+        f = _frame(it, n)
+        nrows = len(f.info["rows"])
+        if n % 2:
+            return (lambda: it.handle(f).append_column(np.array(["t"] * nrows), "c12colu", datatype=np.dtype("<U4")), None)
+        return (lambda: it.handle(f).append_column([object() for _ in range(nrows)], "c12colo", datatype=object), None)
+
+    @reg("DataFrame.append_rows/text-that-cannot-be-stored")
+    def _(it, n):
+        f = _frame(it, n)
+        bad = "a\x00b" if n % 2 else "c\ud800d"
+        return (lambda: it.handle(f).append_rows([(1, "fine", 2.5), (2, bad, 3.5)]), None)
+
     @reg("DataFrame.write_rows/row-out-of-range")
     def _(it, n):
         f = _frame(it, n)
